@@ -1489,6 +1489,12 @@ class SymFP:
     def floor(self):
         return SymFP(z3.fpRoundToIntegral(z3.RTN(), self.t))
 
+    def __round__(self, ndigits=None):
+        """builtin round(x): round half to even, as a double holding an integral value."""
+        if ndigits not in (None, 0):
+            raise HarnessError('round(x, ndigits) of a symbolic double is not modelled')
+        return SymFP(z3.fpRoundToIntegral(z3.RNE(), self.t))
+
     def __int__(self):
         """int(x): truncation toward zero; realised (forks over the feasible values)."""
         bv = z3.fpToSBV(z3.RTZ(), self.t, z3.BitVecSort(32))
